@@ -21,3 +21,8 @@ def run(rep: Report, repo: Repo, tier: str) -> None:
     # CMake command names are case-insensitive: FUNCTION() and function() are the same invocation
     misc_rules.rule_case_folding(rep, repo, "C05-R7")
     misc_rules.rule_no_partial_ops(rep, repo, "C05-R8")
+    # "processed to completion without error": rendering is total, and the listener raises only on the current command's arguments
+    from . import render
+    render.rule_render_total(rep, repo, "C05-R9")
+    protocol.rule_raise_census(rep, repo, "C05-R10")
+    protocol.rule_rejections(rep, repo, "C05-R11")
